@@ -148,7 +148,7 @@ def graph_summary(g, roots=None, active_only=False):
     """pins and requirer relation of a DistributionCollection, in comparable form.
     Edges are (requirer, project, specifier, requested extras, activating extra of the requirer); with
     `active_only` only requirements that apply under the extras currently requested of the requirer."""
-    from req_compile.containers import req_uses_extra
+    from rv.common import applies_under as req_uses_extra
     pins = {}
     edges = set()
     nodes = list(g.nodes.values()) if roots is None else [n for n in g.visit_nodes(roots)]
